@@ -45,6 +45,12 @@ EXPLANATION = (
     "numeric data. The numbers themselves, thresholds, and the row "
     "arithmetic of truncation and merging are not decided.")
 
+EXPLANATION += (
+    ' Added after the seeded rounds: every chunk reaches _process_chunk '
+    '(R-COVER); merged tables start from zeros; reference files are '
+    'compared by gene sequence; chunk windows tile the rows (R-TILE).'
+)
+
 RULE_TEXT = (
     "one obligation per key of each producer, per required read, per "
     "merge loop, per statistic, per use of the row index")
